@@ -7,7 +7,7 @@ INV = ["OneRecordPerTasking", "NoRecordWithoutTasking", "PointingReflectsTasking
 PROPS = ["NonInterference", "CommitAtomic"]
 def cfg(name, T, S, E="E1", ET="AllT", ES="AllS", pol="PolGreedy", nsteps=2, out=1, est=True, ser=False,
         reset=False, squared=False, keep=False, prio_all=False, prune_eq=False, events="NoEvents", dt=1,
-        IT=None, IS=None, faults=False):
+        IT=None, IS=None, faults=False, partial=False, out_dt=None):
     B = lambda b: "TRUE" if b else "FALSE"
     txt = f"""SPECIFICATION Spec
 CONSTANTS
@@ -21,7 +21,7 @@ CONSTANTS
   Policy <- {pol}
   NSteps = {nsteps}
   Dt = {dt}
-  OutEvery = {out}
+  OutDt = {out_dt or out * dt}
   Events <- {events}
   WithEstimation = {B(est)}
   WithSerendipity = {B(ser)}
@@ -31,6 +31,7 @@ CONSTANTS
   KeepMissedAcrossSteps = {B(keep)}
   PriorityToAllEngines = {B(prio_all)}
   PruneKeepsEqual = {B(prune_eq)}
+  PartialCommit = {B(partial)}
 """ + "".join(f"INVARIANT {i}\n" for i in INV) + "".join(f"PROPERTY {p}\n" for p in PROPS)
     Path(__file__).resolve().parent.parent.joinpath("spec", f"MCResonaate_{name}.cfg").write_text(txt)
 cfg("greedy22", "T2", "S2")
@@ -55,3 +56,6 @@ cfg("ev_addremove", "T2", "S2", IT="T1", nsteps=3, dt=3, events="AddRemove", out
 cfg("ev_durations", "T2", "S2", E="E2", ET="SplitT", ES="SplitS", pol="PolMixed", nsteps=3, dt=3, events="Durations")
 cfg("coded_prune", "T1", "S1", nsteps=3, dt=3, events="Imp3", prune_eq=True)
 cfg("coded_prio", "T2", "S2", E="E2", pol="PolMixed", nsteps=3, dt=3, events="Durations", prio_all=True)
+cfg("out_nonmultiple", "T1", "S1", nsteps=6, dt=2, out_dt=3, faults=True)
+cfg("out_faults_events", "T2", "S2", IT="T1", nsteps=3, dt=3, events="AddRemove", out_dt=6, faults=True)
+cfg("coded_partialcommit", "T1", "S1", nsteps=2, faults=True, partial=True)
